@@ -331,12 +331,13 @@ class Ctx:
                 (self.work / ("%s_%d.tlcout" % (name, n))).write_text(res.out)
                 raise MachineryError("invariant %s violated while validating traces with %s; "
                                      "trace specs must be total (see %s)" % (res.violated, module, tf))
-            if not res.ok and "TLC was evaluating the nested" in res.out and not res.violated:
+            if not res.ok and not res.violated and any(m in res.out for m in (
+                    "TLC was evaluating the nested", "Evaluating assumption", "Attempted to ")):
                 # TLC could not even EVALUATE the spec on a recorded event (a logged value of the wrong shape or type):
                 # such an execution is not a behaviour of the specification.  Find the trace(s) by bisection and give
                 # them the verdict "uninterpretable@1"; everything else in the chunk is still judged normally.
                 self._bisect = getattr(self, "_bisect", 0) + 1
-                if len(part) == 1 or self._bisect > 40:
+                if len(part) == 1 or self._bisect > 120:
                     for i in range(len(part)):
                         verdicts[c0 + i] = "uninterpretable@1"
                     (self.work / ("%s_%d.tlcout" % (name, n))).write_text(res.out)
